@@ -146,3 +146,11 @@ def parts_to_sx(parts):
 
 def deep(doc):
     return copy.deepcopy(doc)
+
+
+def pointer_of_typed_parts(parts):
+    """a JSONPointer holding exactly these parts (ints stay ints), the way JSONPathMatch.pointer() builds one - through
+    the public constructor only (the text is the RFC 6901 spelling of the parts)"""
+    from jsonpath import JSONPointer
+    text = "".join("/" + str(p).replace("~", "~0").replace("/", "~1") for p in parts)
+    return JSONPointer(text, parts=tuple(parts), unicode_escape=False)
